@@ -1039,9 +1039,10 @@ def l2_units(c, r, quick):
                 got = None
                 if i[0] == 'ok':
                     t = i[1].strip()
-                    pv = parse_int_text(t[:-1]) if t.endswith('%') else parse_int_text(t)
+                    pct = t.endswith('%') or t.endswith(' percent')
+                    pv = parse_int_text(t[:-1] if t.endswith('%') else t[:-len(' percent')]) if pct else parse_int_text(t)
                     if pv is not None:
-                        got = Fraction(pv, 100) if t.endswith('%') else Fraction(pv)
+                        got = Fraction(pv, 100) if pct else Fraction(pv)
                 good = got == want
                 if not good and got is not None:
                     m = model_out(um.get(k, ''))
